@@ -7,7 +7,8 @@ CF, PF, AF, ZF, SF, OF = 1, 4, 0x10, 0x40, 0x80, 0x800
 ALL = CF | PF | AF | ZF | SF | OF
 LOGIC = CF | PF | ZF | SF | OF          # AF undefined
 PTR_REGS = [3, 6, 7, 11, 14, 15]        # rbx rsi rdi r11 r14 r15 hold pointers into the scratch buffer
-IDX_REGS = [1, 2, 9, 10]                # rcx rdx r9 r10 hold small index values when used as SIB index
+IDX_REGS = [1, 2, 9, 10]
+ABS_SCRATCH = 0                         # absolute address inside the scratch buffer (set by the harness)                # rcx rdx r9 r10 hold small index values when used as SIB index
 
 
 class Case:
@@ -44,6 +45,12 @@ def modrm(rng, opsize, reg=None, allow_mem=True, rex_w=False, force66=False):
             info["idx"] = None if index == 4 and not rexx else (index + 8 * rexx)
             if index == 4 and rexx:
                 info["idx"] = 12             # r12 as index
+            if ABS_SCRATCH and rng.random() < 0.25:
+                # no base register: mod=00 with SIB.base=101 is disp32 (+ index*scale), whatever REX.B says
+                mod, base = 0, 5
+                out = bytes([((reg & 7) << 3) | 4, (scale << 6) | (index << 3) | base]) + (ABS_SCRATCH + rng.randrange(0, 16)).to_bytes(4, "little")
+                info["reg"] = (reg & 7) + 8 * rexr
+                return {"r": rexr, "x": rexx, "b": rexb}, out, info
             out = bytes([(mod << 6) | ((reg & 7) << 3) | 4, (scale << 6) | (index << 3) | base])
         else:
             rm = rng.choice([3, 6, 7])
